@@ -255,6 +255,10 @@ func execC17(sc *Scenario, env *Env) *Result {
 		if g.a < 1 || g.b < g.a || g.a > L+50 {
 			continue
 		}
+		if !dispatcherAvailable {
+			res.add("nodes.in-bubble-skipped-no-dispatcher-access", 1)
+			continue
+		}
 		sp := &SchedSpec{Sub: r.U64() + uint64(ni), Policy: r.PickS([]string{"random", "fifo", "lifo"}), RecordP: 1, Concurrency: r.Range(1, 8)}
 		disk := NewSimDisk()
 		// main(): startLine = a-1, endLine = b
@@ -380,7 +384,7 @@ func execC17(sc *Scenario, env *Env) *Result {
 	}
 	if wit != nil {
 		for _, path := range []string{"", ":real-binary"} {
-			if path == ":real-binary" && !realOK {
+			if (path == ":real-binary" && !realOK) || (path == "" && !dispatcherAvailable) {
 				continue
 			}
 			var never, more []string
@@ -402,6 +406,18 @@ func execC17(sc *Scenario, env *Env) *Result {
 				viol("exactly-once", "line-content-executed-more-than-once"+path, fmt.Sprintf("ranges %q: the error of batch lines %s was reported by more than one run", listOut, strings.Join(more, ",")))
 			}
 		}
+	}
+	if !dispatcherAvailable {
+		// only the shipped binary could be asked (the harness does not link against the dispatcher of this tree)
+		if !realOK && len(res.Violations) == 0 {
+			res.Status, res.Note = "crash", "no dispatcher access and no real-binary verdict"
+		}
+		if len(res.Violations) > 0 {
+			res.Status = "violation"
+		}
+		res.Hash = fmt.Sprintf("L%d-K%d-%s%s%s", L, K, sc.Params["crlf"], sc.Params["blanks"], sc.Params["nl"])
+		res.WallMS = nowMS(t0)
+		return res
 	}
 	var missing, multiple []string
 	for i := 0; i < L; i++ {
@@ -487,6 +503,22 @@ func init() {
 			}
 			if r.Bool(0.3) {
 				sc.Params["nodefault"] = r.PickS([]string{"kill", "rewrite"})
+				if sc.Params["nodefault"] == "rewrite" && idx >= bound*bound {
+					// a rewrite during the job only matters for a file longer than a reader's first buffer: 80-300 witness lines
+					L = r.Range(80, 300)
+					sc.Params["L"] = fmt.Sprint(L)
+					if len(sc.Worlds) == 0 {
+						p := batchProfile()
+						p.MinYears, p.MaxYears = 1, 1
+						sc.Worlds = []*World{GenWorld(r.Sub("witness", 0), p, paramTables)}
+					}
+					if sc.Params["alignline"] != "" {
+						sc.Params["alignline"] = fmt.Sprint(r.Intn(L))
+					}
+					if sc.Params["longline"] != "" {
+						sc.Params["longline"] = fmt.Sprint(r.Intn(L))
+					}
+				}
 			}
 			if r.Bool(0.35) {
 				// a line end on the edge of a read buffer (4 KiB: bufio; 32 KiB: the calculator's own chunks; 64 KiB)
